@@ -55,4 +55,25 @@ theorem Reach.counts {c : Cfg} {x : α} {es : List (Ev α)} {g : GState α} (r :
 theorem Reach.core {c : Cfg} {x : α} {es : List (Ev α)} {g : GState α} (r : Reach c x es g) :
     (run c (init c x) es).core = g.a.core := by rw [← r.st]; rfl
 
+/-! ### the reset state read against an arbitrary almost-full level
+
+Before the first push-clock edge the `af` register holds its reset value '0' and the level input has not been
+sampled yet.  `ginitL c x d` is the reset state whose ghost "level the flag refers to" is any `d < N`: the invariant
+holds for it, so the reset value is right for every level below the depth (for `level = N` the indication is
+constantly true by definition and the reset value '0' is not — the only level for which that is so). -/
+
+def ginitL (c : Cfg) (x : α) (d : Nat) : GState α :=
+  { ginit c x with a := { (ginit c x).a with g := { (ginit c x).a.g with afLvl := d } } }
+
+theorem ginv_ginitL (c : Cfg) (x : α) (d : Nat) (hd : d < c.N) : GInv c (ginitL c x d) := by
+  have h0 := ginv_ginit c x
+  have i0 := h0.inv
+  exact { inv := { put_eq := i0.put_eq, get_eq := i0.get_eq, oG_le := i0.oG_le, G_le := i0.G_le, oP_le := i0.oP_le,
+                   P_le := i0.P_le, full_eq := i0.full_eq, empty_eq := i0.empty_eq, hist_len := i0.hist_len,
+                   out_eq := i0.out_eq, mem_len := i0.mem_len, mem_ok := i0.mem_ok, peek_ok := i0.peek_ok,
+                   af_ok := fun _ _ => by show 0 + d < 0 + c.N; omega, ae_ok := i0.ae_ok },
+          dg := h0.dg, dp := h0.dp, hp := h0.hp, ep := h0.ep, lg := h0.lg, lp := h0.lp }
+
+theorem proj_ginitL (c : Cfg) (x : α) (d : Nat) : proj c (ginitL c x d) = init c x := proj_ginit c x
+
 end Gatery.C15
